@@ -53,7 +53,7 @@ REC_CFG = """SPECIFICATION Spec
 CONSTANTS
   Keys = %s
   Labels = {0, 1}
-  Filters = {"null", "all", "lx1", "lx0", "fnx0", "nlx1", "nsa", "anx0", "anx1"}
+  Filters = {"null", "all", "lx1", "lx0", "fnx0", "nlx1", "nsa", "anx0", "anx1", "nsp1", "nsp2"}
 INVARIANT Done
 CHECK_DEADLOCK FALSE
 """
@@ -167,7 +167,7 @@ def check_kernel(prop, tier, replay):
     if prop == "C02":
         import fam_tree
         sys_want = fam_tree.KERNEL | {"ctl-events-differ", "fsub-events-differ", "fsub-emits-other", "order-in", "events-not-emitted", "lost-at-quiescence", "crash"}
-        nscen, tlines, tsamples, _ = fam_tree.run_tree(prop, tier, res, sys_want, [("mixed", 0.4), ("refilter", 0.4), ("ctl:relist", 0.2)], 96 if tier == "quick" else 1200)
+        nscen, tlines, tsamples, _ = fam_tree.run_tree(prop, tier, res, sys_want, [("mixed", 0.3), ("refilter", 0.3), ("ctl:relist", 0.6)], 96 if tier == "quick" else 1200)
         sysstats = {"scenarios": nscen, "trace_lines": tlines}
         total += nscen
     res.coverage = {
